@@ -6,4 +6,5 @@ CONSTANTS
   Mn <- NoHint
   Mx <- NoHint
   EmitAll = FALSE
+  FixedMode = FALSE
 CHECK_DEADLOCK FALSE
